@@ -12,7 +12,7 @@ TWO48 == BPow2(48)
 I128MAX == BSub(BPow2(127), BOne)
 I128MIN == BNeg(BPow2(127))
 U64MAX == BSub(BPow2(64), BOne)
-None == "None"
+None == <<>>     \* (a failed checked operation; the empty tuple compares with Bigs and records)
 
 InI128(x) == BLe(I128MIN, x) /\ BLe(x, I128MAX)
 FChk(x) == IF InI128(x) THEN x ELSE None
